@@ -669,10 +669,14 @@ class World:
 PARSE_EXC = (ValueError, SyntaxError, TypeError, MemoryError, RecursionError)
 
 
-def entry_pred(w, kind, names_run, before, after, ret, arts, whole_registry):
+def entry_pred(w, kind, names_run, before, after, ret, arts, whole_registry, calls=()):
   """the clauses of C16 on the protobufs after one `_CheckArtifacts` / entry-point call."""
   for i, (b0, a1) in enumerate(zip(before, after)):
-    m = mono_violation(b0, a1)
+    # an attached entry a check (re)writes with a plain AttachInfo (DISCRETE_LOG*) is not a factor
+    # record, whatever a hand-edited earlier value of it parses to (as in Part A and in
+    # C16.checkArtifacts_factors_grow)
+    overwritten = {p[0] for c in calls for tgt, k, p in c['log'] if tgt == ('a', i) and k == 'info'}
+    m = mono_violation(b0, a1, overwritten)
     if m:
       return 'artefact %d: %s' % (i, m)
     if consistent(b0) and not consistent(a1):
@@ -706,6 +710,45 @@ def entry_pred(w, kind, names_run, before, after, ret, arts, whole_registry):
           return 'artefact %d: %s unfactored but severity %d' % (i, n, sv)
       elif sv != int(chk.severity):
         return 'artefact %d: %s carries severity %d, documented %d' % (i, n, sv, chk.severity)
+  return None
+
+
+def merge_pred(w, kind, calls, before, after, arts):
+  """pre-annotated clause of C16 (Props/C16Merge.lean) on the implementation: every check of the
+  call makes exactly one SetTestResult per artefact it applies to (none otherwise), and the
+  test_info afterwards is the documented merge of what the artefact carried before with those
+  test_results: first entry of the name gets result OR-ed / severity max-ed, later duplicates and
+  every other entry untouched, missing names appended in call order; weak = old weak OR some new
+  positive; version kept if non-empty else the library version iff something was written."""
+  for i, (b0, a1) in enumerate(zip(before, after)):
+    cid = w.static(kind, arts[i])[0]
+    curve_known = w.ec_util.CURVE_FACTORY.get(cid) is not None
+    entries = [list(e) for e in b0['entries']]
+    new = []
+    for c in calls:
+      sets = [p for tgt, k, p in c['log'] if tgt == ('a', i) and k == 'set']
+      nc, unk, iss = w.flags[c['name']]
+      exp_n = 1 if (iss or curve_known or not nc) else 0
+      if len(sets) != exp_n:
+        return 'artefact %d: %s made %d SetTestResult calls, applicable=%r' % (
+            i, c['name'], len(sets), bool(exp_n))
+      for (nm, res, sv) in sets:
+        if nm != w.reg[kind][c['name']].check_name:
+          return 'artefact %d: %s wrote an entry named %r' % (i, c['name'], nm)
+        new.append((nm, res, sv))
+        old = next((e for e in entries if e[0] == nm), None)
+        if old is None:
+          entries.append([nm, res, sv])
+        else:
+          old[1] = old[1] or res
+          old[2] = max(old[2], sv)
+    if [tuple(e) for e in entries] != list(a1['entries']):
+      return 'artefact %d: entries %r, documented merge of %r with %r gives %r' % (
+          i, a1['entries'], b0['entries'], new, [tuple(e) for e in entries])
+    if a1['weak'] != (b0['weak'] or any(r for _, r, _ in new)):
+      return 'artefact %d: weak %r, was %r, new results %r' % (i, a1['weak'], b0['weak'], new)
+    if a1['version'] != (b0['version'] or (w.ver if new else '')):
+      return 'artefact %d: version %r, was %r' % (i, a1['version'], b0['version'])
   return None
 
 
@@ -763,7 +806,7 @@ def run_call(w, spy, b, kind, arts, names, tag, entry_point=False):
     exc = e
     ret = None
   spy.frames = []
-  calls = spy.calls
+  calls = list(spy.calls)   # (issuer_pred below runs CheckAllEC again: keep this call's log)
   after = [snap(a.test_info) for a in arts]
   if exc is not None:
     # only an exception of the read-back expression of GetAttachedFactors is in the model;
@@ -801,11 +844,13 @@ def run_call(w, spy, b, kind, arts, names, tag, entry_point=False):
   failure = None
   if exc is None:
     failure = entry_pred(w, kind, list(names), before, after, bool(ret), arts,
-                         whole_registry=entry_point)
+                         whole_registry=entry_point, calls=calls)
     if failure is None and kind == 'ecdsa' and list(names).count('CheckIssuerKey') == 1:
       failure = issuer_pred(w, arts, before, after)
+    if failure is None and len({id(a) for a in arts}) == len(arts):
+      failure = merge_pred(w, kind, calls, before, after, arts)
   b.add(line, impl, tag=tag + ('/raises' if exc is not None else ''),
-        pred=(lambda f=failure: f))
+        pred=(lambda f=failure: f), always=True)
   return None
 
 
@@ -880,6 +925,52 @@ def part_b(rep, rng, tier):
           items.append(items[0])                      # duplicate artefact in the batch
         scenario(kind, items, random_plan(kind, rng.choice([1, 2, 3])), rng.random() < 0.5,
                  'random')
+    # PRE-ANNOTATED artefacts through the REAL entry points, one class of stale annotation each
+    # (Props/C16Merge.lean): stale positive / stale negative entries of registered checks,
+    # foreign names, duplicate names, a stale weak flag without entry, stale / blank versions
+    def stale(kind, cls):
+      names = list(w.reg[kind].keys())
+
+      def prep(arts):
+        for a in arts:
+          ti = a.test_info
+          pick_n = rng.sample(names, min(3, len(names)))
+          if cls in ('stale-pos', 'mixed'):
+            for n in pick_n[:2]:
+              ti.test_results.add(test_name=n, result=True, severity=rng.choice([0, 1, 4, 7]))
+            ti.weak = True
+            ti.paranoid_lib_version = '0.9.0'
+          if cls in ('stale-neg', 'mixed'):
+            for n in pick_n[2:] if cls == 'mixed' else pick_n[:2]:
+              ti.test_results.add(test_name=n, result=False, severity=rng.choice([0, 1, 4, 7]))
+            ti.paranoid_lib_version = ti.paranoid_lib_version or self_ver
+          if cls in ('foreign', 'mixed'):
+            ti.test_results.add(test_name='CheckOfAnotherRelease', result=rng.random() < 0.5,
+                                severity=3)
+            ti.test_results.add(test_name='', result=False, severity=0)
+            if cls == 'foreign':
+              ti.weak = any(e.result for e in ti.test_results)
+          if cls in ('dup', 'mixed'):
+            n = rng.choice(names)
+            ti.test_results.add(test_name=n, result=False, severity=1)
+            ti.test_results.add(test_name=n, result=True, severity=2)
+            ti.test_results.add(test_name='Other', result=False, severity=0)
+            ti.test_results.add(test_name='Other', result=False, severity=0)
+          if cls == 'weak-only':
+            ti.weak = True
+            ti.paranoid_lib_version = ' '
+          if cls == 'mixed':
+            rows = list(ti.test_results)
+            rng.shuffle(rows)
+            del ti.test_results[:]
+            ti.test_results.extend(rows)
+      return prep
+    self_ver = w.ver
+    for kind, pool in (('rsa', rsa_pool), ('ec', ec_pool), ('ecdsa', sig_pool)):
+      for cls in ('stale-pos', 'stale-neg', 'foreign', 'dup', 'weak-only', 'mixed'):
+        for rep_i in range(1 if quick else 4):
+          scenario(kind, pick(pool, 4), ['ALL', 'ALL'], False, 'pre:' + cls,
+                   prepare=stale(kind, cls))
     # CheckLowHammingWeight "suspected, not factored" (severity override) next to a factored key
     lhw = [p for p in rsa_pool if p[0] in ('lhw-suspect', 'small-lowweight', 'small-healthy')]
     scenario('rsa', lhw, ['ALL', ['CheckLowHammingWeight'], 'ALL'], False, 'lhw-unfactored')
